@@ -466,9 +466,10 @@ def _grid_forms(tier, rng):
             for (O, w) in angs:
                 for an in anoms:
                     k += 1
-                    if tier == "quick" and k % 3:
+                    # (a stride coprime with the sizes of the inner loops, so that every anomaly and every angle pair is visited)
+                    if tier == "quick" and k % 5 != (k // 30) % 5:
                         continue
-                    yield {"e": e, "i": inc, "raan": O, "argp": w, "anom": an, "body": k % 3}
+                    yield {"e": e, "i": inc, "raan": O, "argp": w, "anom": an, "body": (k // 5) % 3}
 
 
 @contract("C01", "native.roundtrip", funcs=[f"{FORM}.__call__", f"{SV}:StateVector.form.fset", f"{SV}:StateVector.copy"] + [f"{FORM}.{n}" for n in (
